@@ -20,6 +20,7 @@ KINDS = ['combined', 'insertions', 'deletions']
 INCLUDES = ['all', 'combined', 'insertions', 'deletions', '', 'both', 'ALL', 'combined,insertions', 'none']
 
 MALFORMED = [
+    '<html><head></head><body><svg><title>Icon</title><circle r="1"/></svg>hi</body></html>', '<html><head><title>Real</title></head><body><math><title>m</title></math><svg><title>Logo</title></svg>x</body></html>',
     '', ' ', '\n\t ', 'plain text only', '<', '>', '<<<>>>', '</p>', '<p', '<p><b><i>unclosed', '</div></div>text', '<table><tr><td>cell<p>para</table>after',
     '<b><p>misnested</b></p>', '<a href="x"><a href="y">nested</a></a>', '<select><option>a<option>b</select><optgroup>', '<title>only title</title>',
     '<head><title>T</title></head>', '<body class="only-body" onload="x()">b</body>', '<html lang="en" data-x="1"><p>x</html>', '<!doctype html>', '<!DOCTYPE html PUBLIC "-//W3C//DTD XHTML 1.0 Strict//EN" "http://www.w3.org/TR/xhtml1/DTD/xhtml1-strict.dtd"><html><body><p>xhtml</p></body></html>',
@@ -187,8 +188,10 @@ def shape_failures(a, b, include, result, structure=True):
                 live = lambda e: not e.find_parent('template', id='wm-diff-old-head')   # noqa
                 meta = [e for e in v.find_all('meta', attrs={'name': 'wm-diff-title'}) if live(e)][-1]
                 got_old, got_new = unmark(meta.get('content', ''))
-                if (got_old, got_new) != (h.get_title(old), h.get_title(new)):
-                    fails.append('title diff %r reconstructs (%r, %r), titles are (%r, %r)' % (meta.get('content'), got_old, got_new, h.get_title(old), h.get_title(new)))
+                import render_lib
+                want = (render_lib.page_title(old), render_lib.page_title(new))
+                if (got_old, got_new) != want:
+                    fails.append('title diff %r reconstructs (%r, %r), titles are (%r, %r)' % (meta.get('content'), got_old, got_new, want[0], want[1]))
                 tmpl = [e for e in v.find_all('template', id='wm-diff-old-head') if live(e)][-1]
                 want = html5_parser.parse('<template>%s</template>' % ser_children(old.head), treebuilder='soup', return_root=False).find('template')
                 if re.sub(r'\s+', ' ', ser_children(tmpl)) != re.sub(r'\s+', ' ', ser_children(want)):
